@@ -21,6 +21,12 @@ var (
 )
 
 func init() {
+	bankLookup = func(i int) func(rt *RT, f *Fn) interface{} {
+		if i < 0 || i >= len(bankFactories) {
+			return nil
+		}
+		return bankFactories[i]
+	}
 	if err := json.Unmarshal([]byte(bankSpecsJSON), &BankSpecs); err != nil {
 		panic(err)
 	}
